@@ -39,7 +39,7 @@ func main() {
 		runScript(id, f.Seed, i, nil, cf, meta)
 		id++
 	}
-	nConc := f.Count(24, 200)
+	nConc := f.Count(24, 150)
 	for i := 0; i < nConc; i++ {
 		runConc(id, f.Seed, 1000000+i, f.Out, cf, meta)
 		id++
